@@ -393,6 +393,8 @@ def m_map_err(px, st, fr, ev):
     a["value"] = ok(payload(t, "Ok"))
     if body is not None and body in px.facts.bodies:
         b.update({"inline": body, "args": call_args(f, [payload(t, "Err")]), "wrap": err})
+    elif isinstance(f, tuple) and f and f[0] == "fn" and f[1] in ("std::mem::drop", "core::mem::drop"):
+        b["value"] = err(UNIT)      # `.map_err(drop)`: the error is discarded
     else:
         b["value"] = err(("mapped_err", f, payload(t, "Err")))
     return [a, b]
@@ -440,7 +442,8 @@ def _inl(px, f, args, wrap=None, ev=None):
             d["wrap"] = wrap
         return d
     if isinstance(f, tuple) and f and f[0] == "fn" and ev is not None:
-        r = ("call", f[1], tuple(args), ev["uid"])
+        ctor = {"Ok": ok, "Err": err, "Some": some}.get(f[1].split("::")[-1]) if f[1] in CTOR_FNS else None
+        r = ctor(args[0]) if ctor is not None and len(args) == 1 else ("call", f[1], tuple(args), ev["uid"])
         return {"value": wrap(r) if wrap is not None else r}
     return None
 
@@ -526,6 +529,55 @@ def m_opt_unwrap_or_default(px, st, fr, ev):
 def m_opt_is_some_and(px, st, fr, ev):
     t, f = ev["args"]
     return _two_way(px, t, "Some", "None", ("call", f, [payload(t, "Some")], None), ("value", FALSE), ev=ev)
+
+
+CTOR_FNS = {"std::prelude::v1::Ok", "std::result::Result::Ok", "core::result::Result::Ok",
+            "std::prelude::v1::Err", "std::result::Result::Err", "core::result::Result::Err",
+            "std::prelude::v1::Some", "std::option::Option::Some", "core::option::Option::Some"}
+
+
+def _ctor_model(mk):
+    def m(px, st, fr, ev):
+        if len(ev["args"]) != 1:
+            return None
+        return val(mk(ev["args"][0]))
+    return m
+
+
+for _names, _mk in ((("std::prelude::v1::Ok", "std::result::Result::Ok", "core::result::Result::Ok"), lambda v: ok(v)),
+                    (("std::prelude::v1::Err", "std::result::Result::Err", "core::result::Result::Err"), lambda v: err(v)),
+                    (("std::prelude::v1::Some", "std::option::Option::Some", "core::option::Option::Some"), lambda v: some(v))):
+    model(*_names, reason="a tuple-variant constructor used as a function (`.map(Ok)`): builds that variant")(_ctor_model(_mk))
+
+
+@model("std::result::Result::<T, E>::inspect_err", reason="inspect_err(f): calls f(&e) on Err; returns the receiver unchanged")
+def m_res_inspect_err(px, st, fr, ev):
+    t, f = ev["args"]
+    return _two_way(px, t, "Ok", "Err", ("value", t), ("call", f, [("refconst", payload(t, "Err"))], (lambda _r: t)), ev=ev)
+
+
+@model("std::result::Result::<T, E>::inspect", reason="inspect(f): calls f(&x) on Ok; returns the receiver unchanged")
+def m_res_inspect(px, st, fr, ev):
+    t, f = ev["args"]
+    return _two_way(px, t, "Ok", "Err", ("call", f, [("refconst", payload(t, "Ok"))], (lambda _r: t)), ("value", t), ev=ev)
+
+
+@model("std::option::Option::<T>::inspect", reason="inspect(f): calls f(&x) on Some; returns the receiver unchanged")
+def m_opt_inspect(px, st, fr, ev):
+    t, f = ev["args"]
+    return _two_way(px, t, "Some", "None", ("call", f, [("refconst", payload(t, "Some"))], (lambda _r: t)), ("value", t), ev=ev)
+
+
+@model("std::option::Option::<T>::filter", reason="None -> None; Some(x) -> Some(x) if pred(&x) else None")
+def m_opt_filter(px, st, fr, ev):
+    t, f = ev["args"]
+    x = payload(t, "Some")
+
+    def keep(b):
+        if is_const(b):
+            return some(x) if b[1] else NONE
+        return ("optif", b, x)
+    return _two_way(px, t, "Some", "None", ("call", f, [("refconst", x)], keep), ("value", NONE), ev=ev)
 
 
 @model("std::option::Option::<T>::is_none_or", reason="None -> true; Some(x) -> f(x)")
@@ -748,6 +800,21 @@ def m_try_branch(px, st, fr, ev):
 @model("std::ops::FromResidual::from_residual", reason="`?`: the residual becomes the function's own Err/None")
 def m_from_residual(px, st, fr, ev):
     t = ev["args"][0]
+    dty = ev["dest"]["ty"].get("s", "")
+    if is_agg(t) and t[3] == "Err" and dty.startswith("std::task::Poll<"):
+        # `?` on a Result inside a poll function: Poll<Result<..>> / Poll<Option<Result<..>>> carry the error as Ready(Err) /
+        # Ready(Some(Err)) (std's FromResidual impls for Poll); the error goes through From::from (the identity when the
+        # error type is unchanged)
+        e = agg_get(t, "0")
+        aty = (ev["argops"][0].get("ty") or ev["argops"][0].get("place", {}).get("ty") or {}).get("s", "")
+        pre = "std::result::Result<std::convert::Infallible, "
+        same = aty.startswith(pre) and any(dty.endswith(", " + aty[len(pre):-1] + ">" * k) for k in (2, 3))
+        ee = err(e if same else ("from", e))
+        rdy = lambda v: agg("adt", "std::task::Poll", "Ready", (("0", v),))
+        if dty.startswith("std::task::Poll<std::option::Option<std::result::Result<"):
+            return val(rdy(some(ee)))
+        if dty.startswith("std::task::Poll<std::result::Result<"):
+            return val(rdy(ee))
     if is_agg(t) and t[3] == "Err":
         e = agg_get(t, "0")
         return val(err(("from", e)))
@@ -1127,6 +1194,17 @@ def m_slice_split(px, st, fr, ev):
 def m_slice_contains(px, st, fr, ev):
     seq = seq_of(px, st, ev["args"][0])
     x = deref_val(px, st, ev["args"][1], depth=2)
+    t = ("contains", seq, x)
+    px.mark_bool(t)
+    return val(st.cons.lookup(t))
+
+
+@model("core::str::<impl str>::contains", reason="contains(ASCII char): the string's bytes contain that byte (UTF-8: bytes below 128 occur only as themselves)")
+def m_str_contains(px, st, fr, ev):
+    x = ev["args"][1]
+    if not (is_const(x) and isinstance(x[1], int) and 0 <= x[1] < 128):
+        return None
+    seq = seq_of(px, st, ev["args"][0])
     t = ("contains", seq, x)
     px.mark_bool(t)
     return val(st.cons.lookup(t))
